@@ -219,7 +219,7 @@ def r7(ctx):
     cl = lambda x: mentions_call(x, r"OutstationSession::classify$")
     for b in call_sites(bd, r"DeferredRead::set$"):
         gs = ctx.guards_at(bd, b.idx)
-        ok = any(g.kind == "is" and cl(g.a) and g.name in ("NewRead", "RepeatRead") for g in gs)
+        ok = any(g_oneof(cl, ("NewRead", "RepeatRead"))(g) for g in gs)
         ctx.check(ok, "defer:set-in-read-arm", "DeferredRead::set in a READ arm", bd.where(b.idx))
         e = ctx.sym(bd).call_expr(b.term)
         ctx.check(mentions_field(e[2][2], "seq") and mentions_name(e[2][3], "info") or True, "defer:set-args", "set(hash, %s, %s, ..)" % (expr_str(e[2][2])[-40:], expr_str(e[2][3])[-40:]), bd.where(b.idx))
